@@ -1,12 +1,99 @@
 """Contracts for DocumentTemplate.DT_In."""
 from pyvc.contracts import *  # noqa
+from contracts.core import SN, M
 
 IN = 'DocumentTemplate.DT_In.InClass'
+RB = M + ".render_blocks"
+GI = M + ".TemplateDict.__getitem__"
+SES = 'DocumentTemplate.DT_Util.sequence_ensure_subscription'
+
+
+def _inself():
+    return Obj(IN, lazy=True, fields={'args': DictS(types={'prefix': 'str'})})
+
+
+# sort_sequence / reverse_sequence as seen by the render functions: a NEW list (C13 frame),
+# nothing pushed or popped.
+contract(IN + ".sort_sequence",
+         params=dict(self=_inself(), sequence=Seq(kind='any'), md=TD()),
+         ensures=dict(SN, same_length="len_of(result) == len_of(sequence)"), exc_ensures=dict(SN),
+         raises_any=True, returns=ListS())
+contract(IN + ".reverse_sequence",
+         params=dict(self=_inself(), sequence=Seq(kind='any')),
+         ensures=dict(same_length="len_of(result) == len_of(sequence)"),
+         raises_any=True, returns=ListS())
+
+WOB_LOOP = dict(
+    header="for index in range(l_)",
+    ghost={'x0': "stack_extra(md)"}, ghost_types={'x0': 'same'},
+    inv=dict(stack="stack_extra(md) == x0", level="level_of(md) == old(level_of(md))"),
+    havoc_heap=["kw", "result"],
+    types={'client': 'opaque', 't': 'opaque', 'pushed': 'int', 'vv': 'opaque'})
+
+BODY_LIVE = ['self', 'md', 'sequence', 'cache', 'section', 'mapping', 'no_push_item', 'index', 'pkw', 'kw',
+             'result', 'append', 'render', 'push', 'pop', 'guarded_getitem', 'client', 'l_', 'last', 'vars',
+             'prefix']
+
+contract(IN + ".renderwob",
+         params=dict(self=_inself(), md=TD()),
+         ensures=dict(SN), exc_ensures=dict(SN),
+         uses=[RB, GI, SES, IN + ".sort_sequence", IN + ".reverse_sequence", M + ".join_unicode"],
+         cuts=[dict(before="prefix = self.args.get('prefix')",
+                    live=['self', 'md', 'sequence', 'cache', 'section', 'mapping', 'no_push_item'],
+                    abstract={'sequence': Seq(kind='any')},
+                    havoc_fields=[('self', 'sort', None)],
+                    forget=['self.sort', 'self.reverse', 'self.expr', 'self.elses']),
+               dict(before="if guarded_getitem is not None:", live=BODY_LIVE,
+                    abstract={'index': Int()}, assume={'idx': "index >= 0"}, havoc_heap=["kw"]),
+               dict(before="pkw['sequence-index'] = index", live=BODY_LIVE,
+                    abstract={'client': Opaque(), 'index': Int()}, havoc_heap=["kw"], forget=['guarded_getitem']),
+               dict(before="if no_push_item:", live=BODY_LIVE + ['t'],
+                    abstract={'client': Opaque(), 't': Opaque()}, havoc_heap=["kw"]),
+               ],
+         invariants={2: WOB_LOOP})
+
+
+# int_param (DT_In): literal digits or a namespace lookup; no push/pop.
+contract('DocumentTemplate.DT_In.int_param',
+         params=dict(params=DictS(), md=TD(), name=Opaque(), default=Opaque()),
+         ensures=dict(SN), exc_ensures=dict(SN), raises_any=True, returns=Opaque(), uses=[GI])
+
+OPT = 'DocumentTemplate.DT_InSV.opt'
+WB_LOOP = dict(
+    header="for index in range(first, end)",
+    ghost={'x0': "stack_extra(md)"}, ghost_types={'x0': 'same'},
+    inv=dict(stack="stack_extra(md) == x0", level="level_of(md) == old(level_of(md))"),
+    havoc_heap=["kw", "result"], havoc_ghost=["sequence"],
+    types={'client': 'opaque', 't': 'opaque', 'pushed': 'int', 'vv': 'opaque', 'pstart': 'int', 'pend': 'int',
+           'psize': 'int'})
 
 contract(IN + ".renderwb",
-         params=dict(self=Obj(IN, lazy=True), md=TD()),
-         requires=[],
-         ensures=dict(stack="stack_unchanged(md)"),
-         exc_ensures=dict(stack="stack_unchanged(md)"),
-         uses=['DocumentTemplate.DT_InSV.opt'],
-         )
+         params=dict(self=_inself(), md=TD()),
+         ensures=dict(SN), exc_ensures=dict(SN),
+         uses=[RB, GI, SES, IN + ".sort_sequence", IN + ".reverse_sequence", M + ".join_unicode",
+               'DocumentTemplate.DT_In.int_param', OPT],
+         cuts=[dict(before="next = previous = 0",
+                    abstract={'sequence': Seq(kind='any', lazy=True)},
+                    assume={'nonempty': "len_of(sequence) >= 1"},
+                    havoc_fields=[('self', 'sort', None)],
+                    forget=['self.sort', 'self.reverse', 'self.expr', 'self.elses']),
+               dict(before="start, end, sz = opt(start, end, size, orphan, sequence)",
+                    abstract={'start': Int(assumed=True), 'end': Int(assumed=True), 'size': Int(assumed=True),
+                              'overlap': Int(assumed=True), 'orphan': Int(assumed=True)},
+                    suppose={'orphan_nonneg': "orphan >= 0"}, assume={'nonempty': "len_of(sequence) >= 1"}),
+               dict(before="last = end - 1",
+                    abstract={'start': Int(), 'end': Int(), 'sz': Int()},
+                    assume={'start_lo': "1 <= start", 'ordered': "start <= end"}),
+               dict(before="if index == last: pkw['sequence-end'] = 1",
+                    abstract={'index': Int()}, live=["kw"], havoc_heap=["kw"], drop=['pstart', 'pend', 'psize'],
+                    havoc_ghost=["sequence"], forget_iteration=True),
+               dict(before="if guarded_getitem is not None:",
+                    abstract={'index': Int()}, live=["kw"], havoc_heap=["kw"], havoc_ghost=["sequence"], forget_iteration=True),
+               dict(before="pkw['sequence-index'] = index",
+                    abstract={'client': Opaque(), 'index': Int()}, live=["kw"], havoc_heap=["kw"],
+                    havoc_ghost=["sequence"], forget_iteration=True),
+               dict(before="if no_push_item:",
+                    abstract={'client': Opaque(), 't': Opaque()}, live=["kw"], havoc_heap=["kw"],
+                    havoc_ghost=["sequence"], forget_iteration=True),
+               ],
+         invariants={2: WB_LOOP})
